@@ -271,6 +271,9 @@ pub const LINE_PATS: &[LinePat] = &[
     LinePat { re: "^(TODO: )?", matches: |_| true },
     LinePat { re: "x*$", matches: |_| true },
     LinePat { re: "", matches: |_| true },
+    // significant blanks at the pattern's edges (the attribute value is the pattern, verbatim)
+    LinePat { re: "^- ", matches: |t| t.starts_with("- ") },
+    LinePat { re: " = ", matches: |t| t.contains(" = ") },
     // zero-width assertion only: a word boundary exists iff the line has a word character
     LinePat { re: r"\b", matches: |t| t.chars().any(|c| c.is_alphanumeric() || c == '_') },
 ];
